@@ -312,18 +312,22 @@ def f_sched(rng, sid):
     sc = gen.rand_desc(rng, sid, mutex=0, max_cmds=5)
     total = b""
     for _ in range(rng.randint(1, 4)):
-        total += gen.rand_line(rng, sc)
+        ln = gen.rand_line(rng, sc)
+        if rng.random() < 0.2 and ln[:1] in (b"A", b"a"):
+            ln = ln[:1] + b"\r" + ln[1:]
+        total += ln
     sc.meta["input"] = total
     sc.op("hq " + ",".join(rng.choice(["3", "0", "-1", "1", "2", "3", "0/e:x6162", "7"]) for _ in range(8)) + ",3,3,3,3,3,3,3,3")
     sc.op("vq " + ",".join(rng.choice(["0", "0", "0", "0", "1"]) for _ in range(12)))
-    # feed at random split points
+    # feed at random split points (one scenario in three: byte by byte, so every boundary is a split)
     pos = 0
+    bytewise = rng.random() < 0.34
     while pos < len(total):
-        k = rng.randint(1, max(1, len(total) // 3))
+        k = 1 if bytewise else rng.randint(1, max(1, len(total) // 3))
         sc.inp(total[pos:pos + k])
         pos += k
-        for _ in range(rng.randint(0, 25)):
-            sc.op("svc %d %d" % (rng.random() < 0.6, rng.random() < 0.6))
+        for _ in range(rng.randint(2, 6) if bytewise else rng.randint(0, 25)):
+            sc.op("svc %d %d" % (rng.random() < 0.7, rng.random() < 0.7))
     for _ in range(rng.randint(0, 60)):
         sc.op("svc %d %d" % (rng.random() < 0.5, rng.random() < 0.5))
     drain(sc, 6000)
@@ -647,10 +651,10 @@ def _hv(an):
     return [e[:9] for li in range(len(an.lines)) for e in an.ev[li] if e[0] == "H"], [e for li in range(len(an.lines)) for e in an.ev[li] if e[0] == "V"]
 
 
-def meta_C12(seed, tier, bins):
+def meta_C12(seed, tier, bins, n=None):
     """event-free input under an arbitrary schedule vs. the eager schedule: same output bytes, same
     handler and variable-callback invocations with the same arguments, same final memory"""
-    n = 60 if tier == "quick" else 800
+    n = n or (60 if tier == "quick" else 800)
     sched = generate(seed, "sched", n, prefix="C12-twin")
     eager = []
     for sc in sched:
@@ -682,19 +686,28 @@ def meta_C12(seed, tier, bins):
     return out
 
 
-def meta_C20(seed, tier, bins):
+def meta_C20(seed, tier, bins, n=None):
     """the output for a concatenation of lines equals the concatenation of the outputs for each line fed
     alone (same handlers, variables carried over)"""
-    n = 50 if tier == "quick" else 600
+    n = n or (50 if tier == "quick" else 600)
     rng = random.Random(repr((seed, "C20-twin")))
     out = []
     cat, singles = [], []
     for k in range(n):
         sc = gen.rand_desc(rng, "C20-twin-%d-%d" % (seed, k), mutex=0, max_cmds=6)
+        if rng.random() < 0.3 and not any(c.implicit for c in sc.cmds):
+            sc.cmds[0].implicit = True
+            sc.cmds[0].h = "w"
+            sc.cmds[0].disable = False
         ans = rng.choice(["3", "0", "-1", "3", "7", "0/e:x4142", "3"])
         script = ",".join([ans] * 60)
         vscript = ",".join([rng.choice(["0", "0", "0", "1"])] * 60)
         lines = [gen.rand_line(rng, sc) for _ in range(rng.randint(2, 6))]
+        imp = [c for c in sc.cmds if c.implicit and c.group >= 0]
+        if imp and rng.random() < 0.6:
+            c = rng.choice(imp)
+            ccap = sc.buf if sc.uns >= 0 else sc.buf // 2
+            lines.insert(rng.randrange(len(lines)), b"AT" + c.name + bytes(rng.choice(b"0123456789abc") for _ in range(rng.choice([0, 3, ccap - 1, ccap, ccap + 5, 2 * ccap]))) + b"\n")
         sc.meta["lines"] = lines
         sc.ops = ["hq " + script, "vq " + vscript, "in " + hx(b"".join(lines)), "drain 20000 1 1"]
         cat.append(sc)
@@ -738,9 +751,9 @@ def meta_C20(seed, tier, bins):
     return list(bad.values())
 
 
-def meta_C07(seed, tier, bins):
+def meta_C07(seed, tier, bins, n=None):
     """READ output fed back as WRITE arguments restores every read-write variable"""
-    n = 80 if tier == "quick" else 1500
+    n = n or (80 if tier == "quick" else 1500)
     rng = random.Random(repr((seed, "C07-twin")))
     reads = []
     for k in range(n):
@@ -811,9 +824,9 @@ def meta_C07(seed, tier, bins):
     return out
 
 
-def meta_C08(seed, tier, bins):
+def meta_C08(seed, tier, bins, n=None):
     """two runs that differ only in the contents of write-only variables produce identical output"""
-    n = 60 if tier == "quick" else 800
+    n = n or (60 if tier == "quick" else 800)
     a = generate(seed, "access", n, prefix="C08-twin")
     b = []
     rng = random.Random(repr((seed, "C08-twin")))
